@@ -276,7 +276,7 @@ def sparsity_harness(n1, n2, maxspan, pyfuncs):
         return t
 
     class KV:
-        def __init__(self, s): self.s = s
+        def __init__(self, s): self.s = s; self.numdofs = len(s)
         def mesh_support_idx_all(self): return table(self.s)
 
     def run(c):
@@ -304,6 +304,8 @@ def sparsity_harness(n1, n2, maxspan, pyfuncs):
 def searchsorted_stub(arr, v, side='left'):
     """contract of np.searchsorted on a sorted array, by comparison forking"""
     arr = list(arr)
+    if isinstance(v, (np.ndarray, list, tuple)):
+        return np.array([searchsorted_stub(arr, x, side) for x in v], dtype=object)
     j = 0
     if side == 'right':
         while j < len(arr) and arr[j] <= v: j += 1
@@ -579,7 +581,7 @@ def main():
     # ---- (5) sparsity from knot vectors
     if run.want('sparsity'):
         ns['np'].__dict__['searchsorted'] = searchsorted_stub
-        for (n1, n2, ms) in [(2, 2, 3), (3, 2, 3), (3, 3, 4)] + ([(4, 3, 4), (4, 4, 5)] if thorough else []):
+        for (n1, n2, ms) in [(2, 2, 3), (3, 2, 3), (2, 3, 3), (3, 3, 4)] + ([(4, 3, 4), (3, 4, 4), (4, 4, 5)] if thorough else []):
             h, (s1, s2) = sparsity_harness(n1, n2, ms, ns)
             st = sx.explore(h, timeout_ms=60000, max_paths=200000)
             run.absorb(st, 'sparsity', bound={'fn': 'compute_sparsity_ij', 'functions': [n1, n2], 'spans<=': ms},
@@ -658,10 +660,13 @@ import sys, json, numpy as np
 w = json.load(sys.stdin)
 from pyiga import mlmatrix
 class KV:
-    def __init__(s, t): s.t = np.array(t)
+    def __init__(s, t): s.t = np.array(t); s.numdofs = len(t)
     def mesh_support_idx_all(s): return s.t
-got = [tuple(int(v) for v in r) for r in mlmatrix.compute_sparsity_ij(KV(w['t1']), KV(w['t2']))]
 exp = [(i, j) for i, (a2, b2) in enumerate(w['t2']) for j, (a1, b1) in enumerate(w['t1']) if min(b1, b2) > max(a1, a2)]
+try:
+    got = [tuple(int(v) for v in r) for r in mlmatrix.compute_sparsity_ij(KV(w['t1']), KV(w['t2']))]
+except Exception as e:
+    print(json.dumps({'reproduced': True, 'got': 'exception ' + repr(e), 'expected': exp})); sys.exit(0)
 print(json.dumps({'reproduced': sorted(got) != exp or len(set(got)) != len(got), 'got': got, 'expected': exp}))
 '''
 
